@@ -32,7 +32,7 @@ def _env():
     return env
 
 
-TIER_DEADLINE_S = {"quick": 1500.0, "thorough": float(os.environ.get("VERIF_THOROUGH_WALL", "900"))}
+TIER_DEADLINE_S = {"quick": 1500.0, "thorough": float(os.environ.get("VERIF_THOROUGH_WALL", "600"))}
 TIER_SHARD_BUDGET_S = {"quick": 1e9, "thorough": float(os.environ.get("VERIF_THOROUGH_SHARD", "300"))}
 
 
